@@ -357,29 +357,29 @@ func extractTagTokensFromComment(tok parser.Token) []semanticToken {
 	baseCol := uint32(tok.Pos.Column - 1)
 
 	parts := strings.Split(commentText, ",")
+	partStart := 0
 	searchStart := 0
 	// columns count UTF-16 units: u16Pos is the UTF-16 length of commentText[:searchStart], advanced piece by piece
 	u16Pos := uint32(0)
 
 	for _, part := range parts {
+		partOffset := partStart
+		partStart += len(part) + 1
+
 		trimmed := strings.TrimSpace(part)
 		colonIdx := strings.Index(trimmed, ":")
 		if colonIdx == -1 {
 			continue
 		}
 
-		name := strings.TrimSpace(trimmed[:colonIdx])
+		name := trimmed[:colonIdx]
 		if name == "" || !isValidTagName(name) {
 			continue
 		}
 
-		// Find the position of this tag in the original comment text
-		tagStart := strings.Index(commentText[searchStart:], name+":")
-		if tagStart == -1 {
-			continue
-		}
-		startCol := u16Pos + uint32(lsputil.UTF16Len(commentText[searchStart:searchStart+tagStart]))
-		tagStart += searchStart
+		// The tag sits in its own part of the comment text, after the part's leading blanks
+		tagStart := partOffset + strings.Index(part, trimmed)
+		startCol := u16Pos + uint32(lsputil.UTF16Len(commentText[searchStart:tagStart]))
 
 		// Tag name with colon: "name:"
 		tagNameWithColonLen := uint32(lsputil.UTF16Len(name)) + 1
@@ -398,9 +398,9 @@ func extractTagTokensFromComment(tok parser.Token) []semanticToken {
 		if colonIdx+1 < len(trimmed) {
 			value := strings.TrimSpace(trimmed[colonIdx+1:])
 			if value != "" {
-				// Find where the value starts in the original text
+				// Find where the value starts, inside the tag's own part
 				tagNameEnd := tagStart + len(name) + 1
-				valueStart := strings.Index(commentText[tagNameEnd:], value)
+				valueStart := strings.Index(trimmed[colonIdx+1:], value)
 				if valueStart != -1 {
 					valueCol := endCol + uint32(lsputil.UTF16Len(commentText[tagNameEnd:tagNameEnd+valueStart]))
 					valueLen := uint32(lsputil.UTF16Len(value))
